@@ -151,13 +151,20 @@ class ConnNative(Native):
                     params = list(p.items)
                 else:
                     raise Unsupported("bound parameters are not a literal tuple")
+            out = []
+            if getattr(eng.reg, "sql_read_faults", False) and info["kind"] in ("SELECT",):
+                # a read can fail (database is locked, I/O error, table missing): nothing is answered
+                sf = st.fork()
+                sf.events.append({"ev": "read-failed", "conn": self.cid, "table": info["table"]})
+                sf.trail.append("select=fault")
+                out.append((RAISE, sf, ExcVal("OperationalError")))
             eid = fresh_name("stmt")
             ev = {"ev": "sql", "eid": eid, "conn": self.cid, "kind": info["kind"], "table": info["table"], "info": info,
                   "params": params, "owned": ("db", self.cid) in st.perms}
             st.events.append(ev)
             if info["kind"] == "BEGIN IMMEDIATE":
                 st.perms.append(("db", self.cid))
-            return [(OK, st, CursorNative(self, info, ev))]
+            return out + [(OK, st, CursorNative(self, info, ev))]
         if name == "commit":
             out = []
             if getattr(eng.reg, "sql_commit_faults", False):
